@@ -542,7 +542,11 @@ func checkInvariants(w *e.World) *e.Violation {
 	_ = ctx
 	cctx := w.CommittedCtx()
 	for _, ir := range w.App().CrisisKeeper.Routes() {
-		msg, broken := ir.Invar(cctx)
+		msg, broken, pan := safeInvariant(ir.Invar, cctx)
+		if pan != "" {
+			// an invariant that cannot even be evaluated (the crisis module would halt the chain on it)
+			return e.Violatef("crisis-invariant", "invariant-panics:"+ir.ModuleName+"/"+ir.Route, "after block %d: evaluating the invariant panicked: %s", w.Height-1, trunc(pan, 400))
+		}
 		w.Stats.Oracle++
 		w.Stats.Probe("invariants_evaluated")
 		if broken {
@@ -550,6 +554,16 @@ func checkInvariants(w *e.World) *e.Violation {
 		}
 	}
 	return nil
+}
+
+func safeInvariant(inv sdk.Invariant, ctx sdk.Context) (msg string, broken bool, pan string) {
+	defer func() {
+		if x := recover(); x != nil {
+			pan = fmt.Sprint(x)
+		}
+	}()
+	msg, broken = inv(ctx)
+	return msg, broken, ""
 }
 
 func trunc(s string, n int) string {
